@@ -34,6 +34,13 @@ def sub (a b : Dec) : Dec := ⟨a.raw - b.raw⟩
 def mul (a b : Dec) : Dec := ⟨chopRound (a.raw * b.raw)⟩
 /-- `Quo`: (a·10^36) truncated-divided by b, then rounded back to 18 digits; division by zero panics in Go -/
 def quo (a b : Dec) : Dec := ⟨chopRound (Int.tdiv (a.raw * prec * prec) b.raw)⟩
+/-- `chopPrecisionAndRoundUp` on a non-negative value -/
+def chopRoundUpNonneg (d : Int) : Int :=
+  if Int.tmod d prec == 0 then Int.tdiv d prec else Int.tdiv d prec + 1
+/-- `chopPrecisionAndRoundUp`: up for positive values, truncation for negative ones -/
+def chopRoundUp (d : Int) : Int := if d < 0 then - Int.tdiv (-d) prec else chopRoundUpNonneg d
+/-- `QuoRoundUp`: (a·10^36) truncated-divided by b, then rounded up to 18 digits -/
+def quoRoundUp (a b : Dec) : Dec := ⟨chopRoundUp (Int.tdiv (a.raw * prec * prec) b.raw)⟩
 def mulInt (a : Dec) (i : Int) : Dec := ⟨a.raw * i⟩
 def quoInt (a : Dec) (i : Int) : Dec := ⟨Int.tdiv a.raw i⟩
 def truncateInt (a : Dec) : Int := Int.tdiv a.raw prec
